@@ -136,7 +136,10 @@ def frame(spec, lo, hi):
             out.loc[m, ep["var"]] = out.loc[m, ep["var"]] + float(ep["add"])
     # keep the documented invariants after transforms
     out["Precipitation"] = out["Precipitation"].clip(lower=0.0)
-    out["ReferenceET"] = out["ReferenceET"].clip(lower=float(spec.get("et_floor", 0.1)))
+    if spec["kind"] != "file" or "et_floor" in spec:
+        # a bundled file is used exactly as prepare_weather() hands it over (its own lower limit
+        # of 0.1 mm included): re-clipping here would hide a prepare_weather that stopped clipping
+        out["ReferenceET"] = out["ReferenceET"].clip(lower=float(spec.get("et_floor", 0.1)))
     swap = out.MinTemp > out.MaxTemp
     if swap.any():
         lo_, hi_ = out.MinTemp.where(~swap, out.MaxTemp), out.MaxTemp.where(~swap, out.MinTemp)
